@@ -21,7 +21,9 @@ def one(s):
         r = subprocess.run(['git', '-C', wt, 'apply', '%s/seeded/%s/patch.diff' % (V, s)], capture_output=True, text=True)
         if r.returncode != 0:
             return s, pid, 'PATCH-DOES-NOT-APPLY'
-        r = subprocess.run(['python3', V + '/checks/run.py', pid, '--tier', 'quick', '--repo', wt], capture_output=True, text=True)
+        r = subprocess.run(['python3', V + '/checks/run.py', pid, '--tier', 'quick', '--repo', wt], capture_output=True, text=True,
+                           env=dict(os.environ, VERIF_EVIDENCE_DIR=wt + '.evidence'))
+        shutil.rmtree(wt + '.evidence', ignore_errors=True)
         return s, pid, {0: 'MISSED', 1: 'detected', 2: 'analysis-broken'}.get(r.returncode, str(r.returncode))
     finally:
         subprocess.run(['git', '-C', '/repo', 'worktree', 'remove', '--force', wt])
